@@ -38,6 +38,10 @@ LOCAL = {
                           (1.7, 0.25, (1.2, 0.1, 4.5))]),
              ("Multisphere", (), {"eps": 1e-12, "qeps1": 1e-12,
                                   "qeps2": 1e-14})),
+    # different node counts for the two pupil quadratures
+    "lens-mie-uneq": (("sphere", 1.59, 0.5, (0.17, 0.11, 5.0)),
+                      ("Lens", (0.8, ("Mie", (False, False), {}), 56, 72),
+                       {})),
     "mielens-below": (("sphere", 1.59, 0.5, (0.17, 0.11, -5.0)),
                       ("MieLens", (0.8,), {})),
     "lens-mie-below": (("sphere", 1.59, 0.5, (0.17, 0.11, -5.0)),
@@ -46,10 +50,12 @@ LOCAL = {
 }
 H.ST.update(LOCAL)
 STS = {"quick": ["mie", "mie2", "ms3t", "ms3a", "tm-spheroid", "mielens",
-                 "mielens-below", "lens-mie", "abmielens", "layered"],
+                 "mielens-below", "lens-mie", "lens-mie-uneq", "abmielens",
+                 "layered"],
        "thorough": ["mie", "mie-far", "layered", "mie2", "ms3t", "ms3a",
                     "tm-spheroid", "tm-cylinder", "tm-sphere", "mielens",
-                    "mielens-below", "lens-mie", "lens-mie-below",
+                    "mielens-below", "lens-mie", "lens-mie-uneq",
+                    "lens-mie-below",
                     "abmielens", "mielens2"]}
 PX = 0.1
 SHIFTS = [(1 * PX, 0.0), (0.0, -3 * PX), (2.5 * PX, 1.25 * PX),
